@@ -51,8 +51,11 @@ TRAMPOLINE = r"""
 .intel_syntax noprefix
 .text
 .globl c21_call_checked
+.globl c21_sled_pub
 .type c21_call_checked, @function
-# void c21_call_checked(void *fn /*rdi*/, uint64_t in[6] /*rsi: rdi,rsi,rdx,xmm0,xmm1,xmm2*/, uint64_t out[12] /*rdx*/)
+# void c21_call_checked(void *fn /*rdi*/, uint64_t in[13] /*rsi*/, uint64_t out[12] /*rdx*/)
+#   in[0..5] = rdi, rsi, rdx, rcx, r8, r9;  in[6..8] = xmm0..2;  in[9..12] = the four words at [rsp+8..] on entry of fn
+#   (7th, 8th, 9th parameter + one more word; the caller stores the sled address there when they are not parameters)
 c21_call_checked:
     push rbx
     push rbp
@@ -70,13 +73,20 @@ c21_call_checked:
     push r11
     push r11
     push r11
+    push QWORD PTR [rsi + 96]
+    push QWORD PTR [rsi + 88]
+    push QWORD PTR [rsi + 80]
+    push QWORD PTR [rsi + 72]
     mov [rip + c21_saved_rsp], rsp
     mov rax, rdi
-    movq xmm0, QWORD PTR [rsi + 24]
-    movq xmm1, QWORD PTR [rsi + 32]
-    movq xmm2, QWORD PTR [rsi + 40]
+    movq xmm0, QWORD PTR [rsi + 48]
+    movq xmm1, QWORD PTR [rsi + 56]
+    movq xmm2, QWORD PTR [rsi + 64]
     mov rdi, [rsi]
     mov rdx, [rsi + 16]
+    mov rcx, [rsi + 24]
+    mov r8, [rsi + 32]
+    mov r9, [rsi + 40]
     mov rsi, [rsi + 8]
     lea rbx, [rip + c21_sled]
     lea rbp, [rip + c21_sled + 1]
@@ -84,14 +94,12 @@ c21_call_checked:
     lea r13, [rip + c21_sled + 3]
     lea r14, [rip + c21_sled + 4]
     lea r15, [rip + c21_sled + 5]
-    movabs rcx, 0x5151515151515151
-    mov r8, rcx
-    mov r9, rcx
-    mov r10, rcx
-    mov r11, rcx
+    movabs r10, 0x5151515151515151
+    mov r11, r10
     call rax
     mov rcx, rsp
     jmp c21_collect
+c21_sled_pub:
 c21_sled:
     nop
     nop
@@ -104,7 +112,7 @@ c21_sled:
     mov rcx, rsp
 c21_collect:
     mov rsp, [rip + c21_saved_rsp]
-    mov rdx, [rsp + 64]
+    mov rdx, [rsp + 96]
     mov [rdx], rax
     mov [rdx + 8], rbx
     mov [rdx + 16], rbp
@@ -117,7 +125,7 @@ c21_collect:
     lea r11, [rip + c21_sled]
     mov [rdx + 72], r11
     movq QWORD PTR [rdx + 80], xmm0
-    add rsp, 72
+    add rsp, 104
     pop r15
     pop r14
     pop r13
@@ -144,13 +152,22 @@ c21_saved_rsp:
 #   ("select", c, x, y)            arith.select %c, %x, %y : ty
 # value ids: 0..k-1 arguments, k+i result of op i; `ret` is the returned value id.
 
+def res_ty(ty) -> str:
+    return ty if isinstance(ty, str) else ty[0]
+
+
+def param_tys(ty, k: int):
+    return (ty,) * k if isinstance(ty, str) else tuple(ty[1])
+
+
 def _vname(k: int, v: int) -> str:
     return f"%a{v}" if v < k else f"%v{v - k}"
 
 
 def render(spec, name: str) -> str:
-    _family, ty, k, ops, ret = spec
-    lines = [f"func.func @{name}(" + ", ".join(f"%a{i}: {ty}" for i in range(k)) + f") -> {ty} {{"]
+    _family, fty, k, ops, ret = spec
+    ty = res_ty(fty)
+    lines = [f"func.func @{name}(" + ", ".join(f"%a{i}: {t}" for i, t in enumerate(param_tys(fty, k))) + f") -> {ty} {{"]
     for i, op in enumerate(ops):
         r = f"%v{i}"
         if op[0] == "c":
@@ -170,9 +187,12 @@ def render(spec, name: str) -> str:
 
 def op_key(spec) -> str:
     """the op (or op set) a wrong result is attributed to -- stable, no data"""
-    _family, ty, _k, ops, _ret = spec
+    _family, fty, k, ops, _ret = spec
+    ty = res_ty(fty)
     names = sorted({("constant" if o[0] == "c" else o[1] if o[0] == "b" else o[0]) for o in ops}) or ["return"]
     key = "+".join(names)
+    if k > 6:
+        key = "stackarg+" + key
     return key if ty == "i64" else f"{key}.{ty}"
 
 
@@ -222,6 +242,40 @@ def gen_many_live(k: int, live: int, kind: str, order: str):
             ops.append(("b", "addi", acc, a))
             acc = k + len(ops) - 1
     return ("many-live", "i64", k, tuple(ops), acc)
+
+
+STACK_TYPES = ("i64", "i32", "i16", "index")
+
+
+def gen_stack_family(max_live_regs: int):
+    """functions with 7, 8, 9 parameters (the 7th.. are stack-carried).  The six register parameters have the result
+    type T; the stack-carried ones take every combination of STACK_TYPES; every subset of the stack-carried parameters
+    of type T is used (r = 2*r + u chain, so the order is visible); L register parameters are added at the very end,
+    which keeps them live across the whole body (register pressure -> 0, 1, >= 2 callee-saved registers)."""
+    out = []
+    for nparams in (7, 8, 9):
+        s = nparams - 6
+        for T in STACK_TYPES:
+            for stys in itertools.product(STACK_TYPES, repeat=s):
+                cand = [6 + i for i in range(s) if stys[i] == T]
+                subsets = [u for r in range(1, len(cand) + 1) for u in itertools.combinations(cand, r)]
+                if all(t == T for t in stys):
+                    subsets.append(())       # stack-carried parameters declared but unused
+                for used in subsets:
+                    for live in range(0, max_live_regs + 1):
+                        if not used and live == 0:
+                            continue
+                        seq = list(used) + list(range(live))
+                        ops = []
+                        acc = seq[0]
+                        for v in seq[1:]:
+                            if v >= 6 or not used:      # positional chain: r = (r + r) + v
+                                ops.append(("b", "addi", acc, acc))
+                                acc = nparams + len(ops) - 1
+                            ops.append(("b", "addi", acc, v))
+                            acc = nparams + len(ops) - 1
+                        out.append(("stack", (T, (T,) * 6 + tuple(stys)), nparams, tuple(ops), acc))
+    return out
 
 
 UNSUPPORTED_BINOPS = ("subi", "andi", "ori", "xori", "shli", "shrsi", "shrui", "divsi", "divui", "remsi", "remui",
@@ -282,6 +336,8 @@ def programs(quick: bool):
             for n in (1, 2):
                 for ops in gen_wirings(k, n, (), ("addf", "mulf"), dead=False):
                     out.append(("float", ty, k, ops, k + n - 1))
+    # --- 7..9 parameters: stack-carried parameters x register pressure
+    out.extend(gen_stack_family(4 if quick else 6))
     seen = set()
     uniq = []
     for p in out:  # distinct programs only (a few many-live shapes coincide)
@@ -292,7 +348,18 @@ def programs(quick: bool):
     return uniq
 
 
-def arg_vectors(ty: str, k: int):
+def stack_family_vectors(k: int):
+    """distinct recognisable values per argument (distinct already in the low 16 bits), so a wrong slot is visible"""
+    v1 = tuple((((0xC0DE00 + i) << 40) | (((i + 3) * 0x0B0D0B0D) & 0xFFFFFFFF)) for i in range(k))
+    v2 = tuple(M64 - 3 * i for i in range(k))
+    v3 = tuple((2**31 + i) if i % 2 == 0 else (2**63 - 1 - i) for i in range(k))
+    v4 = tuple(1 << (7 * i) for i in range(k))
+    return [v1, v2, v3, v4]
+
+
+def arg_vectors(ty, k: int):
+    if k > 6:
+        return stack_family_vectors(k)
     if ty == "f64":
         base = F64_ARGS
     elif ty == "f32":
@@ -424,7 +491,8 @@ class Native:
         self.tramp = self.lib.c21_call_checked
         self.tramp.argtypes = [ctypes.c_void_p, ctypes.c_void_p, ctypes.c_void_p]
         self.tramp.restype = None
-        self.inb = (ctypes.c_uint64 * 6)()
+        self.inb = (ctypes.c_uint64 * 13)()
+        self.sled = ctypes.cast(self.lib.c21_sled_pub, ctypes.c_void_p).value
         self.outb = (ctypes.c_uint64 * 12)()
         self.pin = ctypes.addressof(self.inb)
         self.pout = ctypes.addressof(self.outb)
@@ -432,10 +500,14 @@ class Native:
     def addr(self, name: str) -> int:
         return ctypes.cast(getattr(self.lib, name), ctypes.c_void_p).value
 
-    def call(self, addr: int, gpr: tuple, xmm: tuple):
+    def call(self, addr: int, gpr: tuple, xmm: tuple, stack: tuple = ()):
+        """gpr: up to 6 register arguments, xmm: 3, stack: up to 3 stack-carried arguments"""
         b = self.inb
-        b[0], b[1], b[2] = gpr
-        b[3], b[4], b[5] = xmm
+        for i in range(6):
+            b[i] = gpr[i] if i < len(gpr) else GPR_JUNK
+        b[6], b[7], b[8] = xmm
+        for i in range(4):  # words that are not parameters point into the recovery sled (over-pop guard)
+            b[9 + i] = stack[i] if i < len(stack) else self.sled + 7
         self.tramp(addr, self.pin, self.pout)
         return self.outb[:]
 
@@ -468,14 +540,16 @@ def check_native(st: Stats, nat: Native, spec, name: str, text: str, src, asm: s
     """run one compiled function on every argument vector; returns an outcome label"""
     from mc import refsem as R
 
-    family, ty, k, ops, _ret = spec
+    family, fty, k, ops, _ret = spec
+    ty = res_ty(fty)
     is_float = ty in ("f64", "f32")
+    has_push = any(ln.strip().startswith("push") for ln in asm.split("\n"))
     w = type_width(ty)
     wmask = (1 << w) - 1
     addr = nat.addr(name)
     status = "ok"
     tsuf = "" if ty == "i64" else f".{ty}"
-    vectors = arg_vectors(ty, k) if only_args is None else [tuple(only_args)]
+    vectors = arg_vectors(fty, k) if only_args is None else [tuple(only_args)]
     for vec in vectors:
         ref, _log = R.run_func(src, list(vec), name=name)
         if ref is R.POISON:
@@ -486,16 +560,21 @@ def check_native(st: Stats, nat: Native, spec, name: str, text: str, src, asm: s
             out = nat.call(addr, (GPR_JUNK,) * 3, pad3(vec, GPR_JUNK))
             got = out[10] & wmask
         else:
-            out = nat.call(addr, pad3(vec, GPR_JUNK), (GPR_JUNK,) * 3)
+            out = nat.call(addr, vec[:6], (GPR_JUNK,) * 3, vec[6:])
             got = out[0] & wmask
         st.executions += 1
         st.evaluations += 8
         wit = {"text": text, "func": name, "args": [hex(a) for a in vec], "asm": asm, "spec": _spec_json(spec)}
         if not R.values_equal(rts, got, rbits):
             status = "wrong-result"
-            viol(st, f"C21|pipeline|{op_key(spec)}|wrong-result",
-                 f"compiled {ty} function returns {hex(got)} in {'xmm0' if is_float else 'rax'}, the source computes {hex(rbits)}",
-                 {**wit, "expected": hex(rbits), "got": hex(got)}, spec, idx)
+            okey = op_key(spec)
+            if k > 6 and has_push:  # stack-carried parameters read after the prologue moved rsp
+                okey = okey.replace("stackarg+", "stackarg-after-push+", 1)
+            # a value read from a wrong stack slot may be a return address: keep the witness independent of ASLR
+            shown = "a value read from a wrong stack slot" if (k > 6 and has_push) else hex(got)
+            viol(st, f"C21|pipeline|{okey}|wrong-result",
+                 f"compiled {ty} function returns {shown} in {'xmm0' if is_float else 'rax'}, the source computes {hex(rbits)}",
+                 {**wit, "expected": hex(rbits), "got": shown}, spec, idx)
         sled = out[9]
         for i, reg in enumerate(CALLEE_SAVED):
             if out[1 + i] != sled + i:
@@ -517,11 +596,13 @@ def check_native(st: Stats, nat: Native, spec, name: str, text: str, src, asm: s
 
 def _spec_json(spec):
     family, ty, k, ops, ret = spec
-    return [family, ty, k, [list(o) for o in ops], ret]
+    return [family, ty if isinstance(ty, str) else [ty[0], list(ty[1])], k, [list(o) for o in ops], ret]
 
 
 def _spec_unjson(j):
     family, ty, k, ops, ret = j
+    if not isinstance(ty, str):
+        ty = (ty[0], tuple(ty[1]))
     return (family, ty, k, tuple(tuple(o) for o in ops), ret)
 
 
@@ -644,6 +725,10 @@ def run(ctx):
                  % (list(CONSTS_MAIN),)) if ctx.quick else
                 ("i64: 1-2 args <=4 ops (constants {-1, 2^31-1, -2^31} at 4 ops), 3 args <=3 ops + 3 args 4 ops without "
                  "constants and every argument used; {constant, addi, muli}, every wiring, no dead op"),
+        "stack": "7, 8, 9 parameters; six register parameters of the result type T in {i64,i32,i16,index}, stack-carried ones "
+                 "over every combination of those types; every subset of the T-typed stack-carried parameters used "
+                 "(r = 2r + u chain) plus 0..%d register parameters kept live to the end; 4 argument vectors with distinct "
+                 "recognisable values per parameter" % (4 if ctx.quick else 6),
         "many_live": "2..%d simultaneously live constants/products/sums, 1-3 args, 4 summation orders" % (14 if ctx.quick else 16),
         "inputs": {"1-2 args": [hex(a) for a in ARGS_FULL], "3 args": [hex(a) for a in ARGS_REDUCED],
                    "f64": [hex(a) for a in F64_ARGS], "f32": [hex(a) for a in F32_ARGS]},
